@@ -2,14 +2,16 @@ PROP = {'suites': ['c17'],
  'clauses': {1: 'a callback id through which an interaction had finished was accepted again',
              2: 'a request_uri that had started an authorization started another one',
              3: "the redirect URI or state of a navigation were not those of the request's own session",
-             4: 'a callback was served (next page or navigation) after the session timeout counted from the /authorize request that started the interaction'},
+             4: 'a callback was served (next page or navigation) after the session timeout counted from the /authorize request that started the interaction',
+             5: 'an interaction was resumed through an identifier that was never handed to a policy (white space only, unknown)'},
  'title': 'Interactive sessions resume only via their live callback and never mix',
  'text': 'Theorems over the model: one_index (in every reachable state each stored session has exactly one of the four indexes), callback_live_only (a callback continues only for a non-empty id '
          'indexing a stored unexpired session), callback_dead_after_finish and request_uri_one_shot (over ALL histories), session_indexes_unique (every non-empty index identifies one session and was '
          'minted earlier). Correspondence: interleaved multi-step flows, ticks across the timeout, stale/foreign/unknown callbacks, PAR-started flows, compared with the model under both storage '
          'flavours; subject/scopes/state/nonce/redirect of every artifact are compared operation by operation. Deterministic scenarios (scenarioSessionDeadline): multi-step policies resumed inside '
          'the timeout and then past the deadline counted from the start, plain and PAR-started, with a control flow that must finish. The PAR-started deadline scenarios use a pushed-request lifetime '
-         'three times the session timeout.',
+         'three times the session timeout. Deterministic scenario scenarioBlankCallback: callback identifiers made of white space while sessions without a callback id (finished with a code, pushed, '
+         'CIBA) are stored (clause 5).',
  'note': 'Theorems are about the hand-written model (coq/Model); the model is tied to the Go code by the correspondence runs only as far as the generators reach (counts in the evidence). Crypto, '
          "parsers and the clock are modelled (DESIGN.md section 8). session_isolation is shown through the correspondence (every artifact's session-derived values are compared with the model) and "
          'the index-uniqueness theorem, not as a separate ghost-state theorem.',
